@@ -255,7 +255,64 @@ def slow_one(chk, sseed):
     chk.traces += 1
 
 
+def e2e_one(chk, sseed):
+    """whole runs: several repositories, a low limit_rate; the bound is about ALL transfers of the process together"""
+    from e2e import common, runner, scenario
+    import apt_mirror.apt_mirror as am
+    rng = random.Random(sseed)
+    limit = rng.choice([1000, 2000, 5000])
+    w = common.World(rng, rng.randint(2, 3), settings={"limit_rate": str(limit), "nthreads": str(rng.choice([2, 4, 8]))}, select_all=True)
+    try:
+        maxchunk = 0
+        for repo in w.repos:
+            for cs in repo["codenames"].values():
+                for cp in cs["components"].values():
+                    for pkgs in cp.get("binaries", {}).values():
+                        for p in pkgs:
+                            p["size"] = rng.randint(8000, 40000)
+        log = []
+
+        class Rec(RecordingFactory):
+            def __init__(self):
+                super().__init__(log)
+
+        def pre(apt, cfg):
+            pass
+        old = am.AsyncIOFileFactory
+        res = None
+        from e2e import run_e2e
+        # run_mirror patches the seams itself; wrap patch_seams so that our recording factory is installed afterwards
+        orig_patch = runner.patch_seams
+
+        def patched():
+            orig_patch()
+            am.AsyncIOFileFactory = Rec
+        runner.patch_seams = patched
+        try:
+            res = run_e2e.execute(w.sb, w.repos, w.stores(), {}, vloop.RandomChooser(rng.randrange(1 << 30)), budget=60000)
+        finally:
+            runner.patch_seams = orig_patch
+        replay = {"scenario_seed": sseed, "limit": limit, "repos": len(w.repos)}
+        if res.exit != 0:
+            chk.count("e2e_rate_runs_failed")
+        total = sum(x[1] for x in log)
+        maxchunk = max([x[1] for x in log] or [0])
+        wv = check_windows(log, limit, maxchunk)
+        if wv:
+            chk.violation("window-bound:all-repositories", replay, f"{wv[3]} bytes accepted by the whole run between t={wv[1]:.1f} and t={wv[2]:.1f}: "
+                          f"{wv[0]:.0f} above limit*(T+60)+chunk (limit {limit} B/s, {len(w.repos)} repositories)")
+        chk.evaluated(("e2e-rate", limit, len(w.repos), total // 10000), sample={"limit": limit, "repositories": len(w.repos), "bytes": total,
+                                                                                 "virtual_seconds": round((res.vtime or 1000) - 1000, 1)})
+        chk.count("e2e_rate_runs")
+        chk.count("e2e_accept_events", len(log))
+        chk.traces += 1
+    finally:
+        w.destroy()
+
+
 def run(chk, tier, rng):
+    for i in range(12 if tier == "quick" else 300):
+        e2e_one(chk, f"C19e-{chk.seed}-{i}")
     for i in range(60 if tier == "quick" else 1500):
         rate_one(chk, f"C19r-{chk.seed}-{i}")
     for i in range(200 if tier == "quick" else 5000):
@@ -270,7 +327,7 @@ def replay(rep):
     chk = Check("C19", "quick", 0)
     chk.known = []
     s = rep["replay"]["scenario_seed"]
-    (rate_one if s.startswith("C19r") else slow_one)(chk, s)
+    (rate_one if s.startswith("C19r") else (e2e_one if s.startswith("C19e") else slow_one))(chk, s)
     for sig, path, msg, _ in chk.violations:
         print(f"REPLAY VIOLATION {sig}: {msg}")
     return 1 if chk.violations else 0
